@@ -148,7 +148,21 @@ class Closure:
         self.env = env
 
 
-BUILTIN_EXC = {"SyntaxError", "ValueError", "RuntimeError", "KeyError", "IndexError", "TypeError", "LookupError", "AssertionError"}
+BUILTIN_EXC = {"SyntaxError", "ValueError", "RuntimeError", "KeyError", "IndexError", "TypeError", "LookupError", "AssertionError",
+               "Exception", "BaseException", "KeyboardInterrupt", "GeneratorExit", "SystemExit", "AttributeError", "StopIteration"}
+EXC_PARENTS = {
+    "SyntaxError": "Exception", "ValueError": "Exception", "RuntimeError": "Exception", "TypeError": "Exception", "AssertionError": "Exception",
+    "AttributeError": "Exception", "StopIteration": "Exception", "LookupError": "Exception", "KeyError": "LookupError", "IndexError": "LookupError",
+    "Exception": "BaseException", "KeyboardInterrupt": "BaseException", "GeneratorExit": "BaseException", "SystemExit": "BaseException",
+}
+
+
+def exc_matches(cls: str, handler: str) -> bool:
+    while cls is not None:
+        if cls == handler:
+            return True
+        cls = EXC_PARENTS.get(cls)  # type: ignore[assignment]
+    return False
 
 
 def elem_of(t: Any) -> Elem | None:
@@ -158,9 +172,10 @@ def elem_of(t: Any) -> Elem | None:
 
 
 class AbsExec:
-    def __init__(self, qual: str, hooks: dict[str, Callable[..., Any]] | None = None):
+    def __init__(self, qual: str, hooks: dict[str, Callable[..., Any]] | None = None, helpers: dict[str, Any] | None = None):
         self.qual = qual
         self.hooks = hooks or {}
+        self.helpers = helpers or {}  # name -> FunctionInfo of in-package helper methods that may be interpreted when called on cls / self
         self.steps = 0
 
     # ------------------------------------------------------------------ helpers
@@ -208,7 +223,7 @@ class AbsExec:
                 return self.hooks[e.id]
             if e.id in BUILTIN_EXC:
                 return ("exc-class", e.id)
-            if e.id in ("len", "reversed", "list", "tuple", "any", "all", "bool", "isinstance", "set", "frozenset", "iter", "str", "enumerate", "sorted", "min", "max", "range", "type"):
+            if e.id in ("len", "reversed", "list", "tuple", "any", "all", "bool", "isinstance", "set", "frozenset", "iter", "str", "enumerate", "sorted", "min", "max", "range", "type", "locals", "vars", "setattr", "getattr", "hasattr", "delattr", "dict", "zip"):
                 return ("builtin", e.id)
             if e.id == "settings":
                 return SettingsV()
@@ -325,9 +340,28 @@ class AbsExec:
             return out if not isinstance(e, ast.SetComp) else frozenset(out)
         if isinstance(e, ast.Lambda):
             return Closure(e, env)
+        if isinstance(e, ast.Yield):
+            hook = self.hooks.get("yield")
+            if hook is None:
+                raise self.unknown(e, "yield")
+            return hook(self, e, self.ev(e.value, env) if e.value is not None else None, env)
+        if isinstance(e, ast.DictComp):
+            outd: dict[Any, Any] = {}
+            self.dictcomp(e, 0, dict(env), outd)
+            return outd
         if isinstance(e, ast.Call):
             return self.call(e, env)
         raise self.unknown(e)
+
+    def dictcomp(self, e: ast.DictComp, i: int, env: dict[str, Any], out: dict[Any, Any]) -> None:
+        if i == len(e.generators):
+            out[self.ev(e.key, env)] = self.ev(e.value, env)
+            return
+        g = e.generators[i]
+        for v in self.iterate(self.ev(g.iter, env), g.iter):
+            self.bind(g.target, v, env)
+            if all(self.truth(self.ev(c, env), c) for c in g.ifs):
+                self.dictcomp(e, i + 1, env, out)
 
     def comp(self, e: Any, i: int, env: dict[str, Any], out: list[Any]) -> None:
         if i == len(e.generators):
@@ -387,10 +421,12 @@ class AbsExec:
                 return d[name]
             return ("bound", v, name)
         if isinstance(v, MObj):
+            if name == "__dict__":
+                return v.fields
             if name in v.fields:
                 return v.fields[name]
             return ("bound", v, name)
-        if isinstance(v, (list, tuple, Objects, Logger, Opaque, str, dict, frozenset)):
+        if isinstance(v, (list, tuple, Objects, Logger, Opaque, str, dict, frozenset)) and not (isinstance(v, tuple) and v and v[0] in ("class",)):
             return ("bound", v, name)
         if isinstance(v, tuple) and v and v[0] in ("class",):
             return ("class-attr", v[1], name)
@@ -414,7 +450,9 @@ class AbsExec:
         if isinstance(f, tuple) and f and f[0] == "exc-class":
             return ExcValue(f[1])
         if isinstance(f, tuple) and f and f[0] == "builtin":
-            return self.builtin(f[1], args, e)
+            if f[1] == "dict" and kw and not args:
+                return dict(kw)
+            return self.builtin(f[1], args, e, env)
         if isinstance(f, tuple) and f and f[0] == "bound":
             return self.method(f[1], f[2], args, kw, e)
         if isinstance(f, Opaque):
@@ -443,7 +481,35 @@ class AbsExec:
             return r.value
         return None
 
-    def builtin(self, name: str, args: list[Any], e: ast.AST) -> Any:
+    def builtin(self, name: str, args: list[Any], e: ast.AST, env: dict[str, Any] | None = None) -> Any:
+        if name == "locals" and env is not None:
+            return {k: v for k, v in env.items() if not k.startswith("<") and not isinstance(v, Closure) and k in env.get("<locals>", env)}
+        if name == "vars" and len(args) == 1 and isinstance(args[0], MObj):
+            return args[0].fields  # the live attribute dictionary
+        if name == "setattr" and len(args) == 3 and isinstance(args[0], MObj) and isinstance(args[1], str):
+            args[0].fields[args[1]] = args[2]
+            return None
+        if name == "getattr" and len(args) >= 2 and isinstance(args[0], MObj) and isinstance(args[1], str):
+            if args[1] in args[0].fields:
+                return args[0].fields[args[1]]
+            if len(args) == 3:
+                return args[2]
+            raise Internal("AttributeError", f"getattr of missing attribute {args[1]}", e)
+        if name == "hasattr" and len(args) == 2 and isinstance(args[0], MObj) and isinstance(args[1], str):
+            return args[1] in args[0].fields
+        if name == "delattr" and len(args) == 2 and isinstance(args[0], MObj) and isinstance(args[1], str):
+            if args[1] not in args[0].fields:
+                raise Internal("AttributeError", f"delattr of missing attribute {args[1]}", e)
+            del args[0].fields[args[1]]
+            return None
+        if name == "dict":
+            if not args:
+                return {}
+            if isinstance(args[0], dict):
+                return dict(args[0])
+            return {k: v for k, v in self.iterate(args[0], e)}
+        if name == "zip":
+            return [tuple(x) for x in zip(*[self.iterate(a, e) for a in args])]
         if name == "len" and isinstance(args[0], (list, tuple, set, frozenset, dict)):
             return len(args[0])
         if name == "reversed" and isinstance(args[0], (list, tuple)):
@@ -511,6 +577,33 @@ class AbsExec:
                 if not hits:
                     raise Raised("ValueError", e)
                 return hits[0]
+        if isinstance(recv, dict):
+            if name == "items":
+                return [(k, v) for k, v in recv.items()]
+            if name == "keys":
+                return list(recv.keys())
+            if name == "values":
+                return list(recv.values())
+            if name == "copy":
+                return dict(recv)
+            if name == "get":
+                return recv.get(args[0], args[1] if len(args) > 1 else None)
+            if name == "pop":
+                if args[0] in recv:
+                    return recv.pop(args[0])
+                if len(args) > 1:
+                    return args[1]
+                raise Internal("KeyError", f"`{unparse(e)}`", e)
+            if name == "update":
+                for a in args:
+                    recv.update(a if isinstance(a, dict) else {k: v for k, v in self.iterate(a, e)})
+                recv.update(kw)
+                return None
+            if name == "setdefault":
+                return recv.setdefault(args[0], args[1] if len(args) > 1 else None)
+            if name == "clear":
+                recv.clear()
+                return None
         if isinstance(recv, Objects):
             if name == "get":
                 return elem_of(args[0]) if args else None
@@ -521,6 +614,16 @@ class AbsExec:
                 return recv.kind == "function"
             if name == "is_operator":
                 return recv.kind == "operator"
+        if isinstance(recv, Opaque) and name in self.helpers:
+            h = self.helpers[name]
+            node = h.analysis_node if hasattr(h, "analysis_node") else h.node
+            skip = 0 if "staticmethod" in getattr(h, "decorators", []) else 1
+            a = node.args
+            names = [x.arg for x in a.posonlyargs + a.args]
+            env2: dict[str, Any] = {}
+            if skip:
+                env2[names[0]] = recv
+            return self.call_closure(Closure(node, env2), ([recv] if skip else []) + args, kw, e)
         if isinstance(recv, (Opaque, str)):
             if name == "split" and isinstance(recv, Opaque):
                 return TokenStream()
@@ -628,6 +731,11 @@ class AbsExec:
         elif isinstance(s, ast.Return):
             raise _Return(self.ev(s.value, env) if s.value is not None else None)
         elif isinstance(s, ast.Raise):
+            if s.exc is None:
+                act = env.get("<active-exception>")
+                if act is None:
+                    raise self.unknown(s, "bare raise outside a handler")
+                raise act
             v = self.ev(s.exc, env) if s.exc is not None else None
             if isinstance(v, ExcValue):
                 raise Raised(v.cls, s)
@@ -641,28 +749,27 @@ class AbsExec:
         elif isinstance(s, ast.FunctionDef):
             env[s.name] = Closure(s, env)
         elif isinstance(s, ast.Try):
-            if s.finalbody:
-                raise self.unknown(s, "try/finally")
             try:
-                self.block(s.body, env)
-            except Raised as r:
-                for h in s.handlers:
-                    names = []
-                    if h.type is None:
-                        names = [r.cls]
+                try:
+                    self.block(s.body, env)
+                except (Raised, Internal) as r:
+                    cls = r.cls
+                    for h in s.handlers:
+                        names = [cls] if h.type is None else [unparse(x) for x in (h.type.elts if isinstance(h.type, ast.Tuple) else [h.type])]
+                        if any(exc_matches(cls, nm.split(".")[-1]) for nm in names):
+                            if h.name:
+                                env[h.name] = ExcValue(cls)
+                            env["<active-exception>"] = r
+                            self.block(h.body, env)
+                            break
                     else:
-                        for x in (h.type.elts if isinstance(h.type, ast.Tuple) else [h.type]):
-                            names.append(unparse(x))
-                    if r.cls in names or "Exception" in names or "BaseException" in names or \
-                            (r.cls in ("KeyError", "IndexError") and "LookupError" in names):
-                        if h.name:
-                            env[h.name] = ExcValue(r.cls)
-                        self.block(h.body, env)
-                        break
+                        raise
                 else:
-                    raise
-            else:
-                self.block(s.orelse, env)
+                    self.block(s.orelse, env)
+            finally:
+                # the finally block runs on every way out (normal, exception, return, break, continue)
+                if s.finalbody:
+                    self.block(s.finalbody, env)
         elif isinstance(s, ast.Assert):
             if not self.truth(self.ev(s.test, env), s.test):
                 raise Raised("AssertionError", s)
@@ -674,6 +781,11 @@ class AbsExec:
                     if isinstance(base, list) and isinstance(idx, int):
                         if not -len(base) <= idx < len(base):
                             raise Internal("IndexError", f"`{unparse(s)}`", s)
+                        del base[idx]
+                        continue
+                    if isinstance(base, dict):
+                        if idx not in base:
+                            raise Internal("KeyError", f"`{unparse(s)}`", s)
                         del base[idx]
                         continue
                 raise self.unknown(s)
